@@ -110,6 +110,7 @@ pub struct Exec<K: HKey> {
     pub progress_fd: i32,
     pub quarantine: PathBuf,
     pub pending_note: Option<String>,
+    pub readers: std::collections::HashMap<String, std::io::BufReader<std::fs::File>>,
 }
 
 fn guarded<T>(f: impl FnOnce() -> T) -> Result<T, ()> {
@@ -118,7 +119,7 @@ fn guarded<T>(f: impl FnOnce() -> T) -> Result<T, ()> {
 
 impl<K: HKey> Exec<K> {
     pub fn new(root: PathBuf, log: PathBuf, quarantine: PathBuf) -> Self {
-        Exec { root, cfg: Cfg::default(), cas: None, ostats: None, tr: TraceReader::new(log), out: vec![], idx: 0, progress_fd: -1, quarantine, pending_note: None }
+        Exec { root, cfg: Cfg::default(), cas: None, ostats: None, tr: TraceReader::new(log), out: vec![], idx: 0, progress_fd: -1, quarantine, pending_note: None, readers: std::collections::HashMap::new() }
     }
     fn entries(&self) -> String {
         let cas = self.cas.as_ref().unwrap();
@@ -192,7 +193,7 @@ impl<K: HKey> Exec<K> {
             }
             _ => {}
         }
-        if t[0] != "open" && self.cas.is_none() {
+        if t[0] != "open" && t[0] != "drain" && self.cas.is_none() {
             self.out.push(format!("R {} {} -> closed", self.idx, l)); self.idx += 1; return;
         }
         let res: String = match t[0] {
@@ -218,6 +219,10 @@ impl<K: HKey> Exec<K> {
             "reader" => { let cas = self.cas.as_ref().unwrap();
                 match guarded(|| cas.get_reader(&key::<K>(t[1])).map(|o| o.map(|mut r| { let mut v = vec![]; r.read_to_end(&mut v).unwrap(); v }))) {
                     Ok(Ok(Some(b))) => format!("bytes:{}", show_content(&b)), Ok(Ok(None)) => "none".into(), Ok(Err(e)) => err_str(&e), Err(()) => "err:panic".into() } }
+            "hold" => { let cas = self.cas.as_ref().unwrap();
+                // a long-lived reader: opened now, drained later (after overwrites / removals / reopen)
+                match guarded(|| cas.get_reader(&key::<K>(t[2]))) { Ok(Ok(Some(r))) => { self.readers.insert(t[1].to_string(), r); "held".into() } Ok(Ok(None)) => "none".into(), Ok(Err(e)) => err_str(&e), Err(()) => "err:panic".into() } }
+            "drain" => match self.readers.remove(t[1]) { None => "none".into(), Some(mut r) => { let mut v = vec![]; match r.read_to_end(&mut v) { Ok(_) => format!("bytes:{}", show_content(&v)), Err(e) => format!("err:read:{e}") } } },
             "iter" => self.entries(),
             "riter" => { let cas = self.cas.as_ref().unwrap();
                 let (lo, hi) = (parse_bound::<K>(t[1]), parse_bound::<K>(t[2]));
